@@ -274,6 +274,10 @@ fn c18_round(ctx: &Ctx, out: &mut Out, rng: &mut Rng, k: u64) {
         })
         .collect();
     let mut results: Vec<ClientResult> = handles.into_iter().map(|h| h.join().unwrap()).collect();
+    // drops during the closed-loop phase alone (before the burst, which may legitimately exceed a
+    // default-sized receive buffer while the server is stopped)
+    let drops_closed_loop = udp_drops(port).unwrap_or(0).saturating_sub(drops0);
+    let spoofer_ran = spoofer.is_some();
     spoof_stop.store(true, Ordering::Relaxed);
     // requests that timed out are still open: once the load is over, wait until the server has
     // nothing queued and uses no CPU, then look at their (retired) sockets. A reply found there
@@ -511,7 +515,16 @@ fn c18_round(ctx: &Ctx, out: &mut Out, rng: &mut Rng, k: u64) {
     }
     drop(accept_conns);
     if missing > 0 {
-        if drops1 != drops0 {
+        if drops_closed_loop > 0 && !spoofer_ran && nclients <= 64 && cfg.extra_env.is_empty() {
+            // closed-loop clients have one request outstanding each: at most 64 datagrams (well
+            // under 150 KiB of socket memory) were ever queued, which the default receive buffer
+            // (208 KiB) holds. Drops here mean the server's socket cannot hold what it is meant to.
+            out.violation(
+                "C18 requests-dropped-at-the-server-socket closed-loop",
+                &format!("{} closed-loop requests were lost and the kernel dropped {} datagrams at the server's socket although at most {} requests were ever outstanding ({} workers, batch_size {:?})", missing, drops_closed_loop, nclients, nworkers, cfg.batch_size),
+                desc.clone(),
+            );
+        } else if drops1 != drops0 {
             out.inconclusive("kernel drop counter moved");
         } else {
             out.violation("C18 no-reply-within-5s", &format!("{} closed-loop requests got no reply within 5 s nor by the time the server had become idle with nothing queued, and the kernel dropped nothing ({} workers, {} clients)", missing, nworkers, nclients), desc.clone());
@@ -603,10 +616,14 @@ enum Phase {
     /// client_stats on, datagrams from a very large population of distinct source addresses so
     /// that merging / persisting the per-client table takes long, then the signal
     Population,
+    /// client_stats on with a one-second interval, closed-loop load for a few seconds while the
+    /// persistence directory has been removed (or made read-only) behind the server's back: the
+    /// reports fail, the signal must still stop the server cleanly
+    StatsDirGone,
 }
 
 /// one short datagram from each of `count` loopback source addresses base+i (IP_PKTINFO)
-fn send_from_many_sources(port: u16, base: u32, count: u32) -> u64 {
+pub fn send_from_many_sources(port: u16, base: u32, count: u32) -> u64 {
     use std::os::unix::io::AsRawFd;
     let Ok(sock) = UdpSocket::bind("0.0.0.0:0") else { return 0 };
     let fd = sock.as_raw_fd();
@@ -666,9 +683,15 @@ fn c19_run_phase(ctx: &Ctx, out: &mut Out, rng: &mut Rng, k: u64, force: Option<
     let nworkers = [1u32, 4, 16][((k / 2) % 3) as usize];
     let stats_on = (k / 6) % 2 == 1;
     let phase = force.unwrap_or([Phase::Idle, Phase::ClosedLoop, Phase::Flood][((k / 12) % 3) as usize]);
-    let stats_on = (stats_on && phase != Phase::LongIdle && phase != Phase::AcceptFault) || phase == Phase::Population;
+    let stats_on = (stats_on && phase != Phase::LongIdle && phase != Phase::AcceptFault) || phase == Phase::Population || phase == Phase::StatsDirGone;
     let nworkers = if phase == Phase::AcceptFault { [1u32, 2, 4][(k % 3) as usize] } else if phase == Phase::Population { 4 } else { nworkers };
-    let delay_us = if phase == Phase::LongIdle { rng.range(30_000_000, if ctx.thorough { 90_000_000 } else { 34_000_000 }) } else { rng.below(300_000) };
+    let delay_us = if phase == Phase::LongIdle {
+        rng.range(30_000_000, if ctx.thorough { 90_000_000 } else { 34_000_000 })
+    } else if phase == Phase::StatsDirGone {
+        rng.range(2_600_000, 3_600_000)
+    } else {
+        rng.below(300_000)
+    };
     let mut cfg = SrvCfg::new(0, &seed);
     cfg.num_workers = Some(nworkers);
     cfg.batch_size = Some(if rng.chance(1, 2) { *rng.pick(&[1u32, 64]) } else { rng.range(1, 64) as u32 });
@@ -677,7 +700,13 @@ fn c19_run_phase(ctx: &Ctx, out: &mut Out, rng: &mut Rng, k: u64, force: Option<
         let d = ctx.scratch.join("persist19");
         std::fs::create_dir_all(&d).ok();
         cfg.persistence_directory = Some(d);
-        cfg.status_interval = Some(if phase == Phase::Population { 10 } else { *rng.pick(&[1u32, 10, 600]) });
+        // (0 is accepted by the server and makes the status timer fire continuously)
+        cfg.status_interval = Some(if phase == Phase::Population { 10 } else if phase == Phase::StatsDirGone { 1 } else { *rng.pick(&[1u32, 10, 600, 0]) });
+        if phase == Phase::StatsDirGone {
+            let d = ctx.scratch.join(format!("persist19-gone-{}", k));
+            std::fs::create_dir_all(&d).ok();
+            cfg.persistence_directory = Some(d);
+        }
     }
     if phase == Phase::AcceptFault {
         cfg.health_check_port = Some(free_port(true));
@@ -704,6 +733,24 @@ fn c19_run_phase(ctx: &Ctx, out: &mut Out, rng: &mut Rng, k: u64, force: Option<
     let mut accept_conns: Vec<std::net::TcpStream> = Vec::new();
     match phase {
         Phase::Idle | Phase::LongIdle => {}
+        Phase::StatsDirGone => {
+            if let Some(d) = &cfg.persistence_directory {
+                if k % 2 == 0 {
+                    let _ = std::fs::remove_dir_all(d);
+                    out.obs("stats_dir_removed_while_running", 1);
+                } else {
+                    // replaced by a plain file of the same name
+                    let _ = std::fs::remove_dir_all(d);
+                    let _ = std::fs::write(d, b"not a directory");
+                    out.obs("stats_dir_replaced_by_file_while_running", 1);
+                }
+            }
+            for i in 0..8 {
+                let (pk, srv, stop) = (pk.clone(), srv.clone(), stop.clone());
+                let s = rng.next_u64();
+                client_handles.push(std::thread::spawn(move || client_loop(i, port, pk, srv, s, 1_000_000, stop, Duration::from_millis(300), 200)));
+            }
+        }
         Phase::AcceptFault => {
             // the limit is lowered to what the process has open, then connections are queued on
             // the health listener: every worker's accept fails with EMFILE and nothing is dequeued
@@ -948,6 +995,11 @@ pub fn run_c19(ctx: &Ctx, out: &mut Out) {
     if ctx.shard == 1 || (ctx.thorough && ctx.shard == 5) {
         c19_run_phase(ctx, out, &mut rng, 2000 + ctx.shard, Some(Phase::Population));
     }
+    if ctx.shard == 5 || (ctx.thorough && ctx.shard >= 6) {
+        for j in 0..2 {
+            c19_run_phase(ctx, out, &mut rng, 4000 + 2 * ctx.shard + j, Some(Phase::StatsDirGone));
+        }
+    }
     if (2..5).contains(&ctx.shard) || ctx.thorough {
         for j in 0..(if ctx.thorough { 6 } else { 2 }) {
             c19_run_phase(ctx, out, &mut rng, 3000 + 3 * j + ctx.shard, Some(Phase::AcceptFault));
@@ -965,6 +1017,7 @@ pub fn run_c19(ctx: &Ctx, out: &mut Out) {
     out.floor("phase_LongIdle", 1);
     out.floor("phase_AcceptFault", 2);
     out.floor("phase_Population", 1);
+    out.floor("phase_StatsDirGone", 2);
     out.floor("population_phase_reports_written", 1);
     out.floor("signal_runs", 20);
     out.floor("phase_Idle", 1);
